@@ -3,7 +3,9 @@ Hand-written model (coq/FileIO/Ids.v): boost's to_string / version-variant bits,
 createId, and id assignment over histories (every entity kind, deletes, forceId, reopen, other processes).
 Tie: (a) replay of generated histories on the sanitizer-built library with its REAL id generator (only the
 wall clock is virtual, so that "started in the same second" is a script input) and on the extracted model;
-(b) a runtime experiment with the real clock: k processes started together, n ids each."""
+(b) a runtime experiment with the real clock: k processes started together, n ids each; (c) the fork-after-init
+stream: children forked (no exec) by a process whose id generator is already initialised, on the same file (xfork)
+and on separate files (forks N K, all ids through pipes)."""
 import os, sys, random, time, tempfile, shutil, subprocess
 from engine import Prop, Case, BUILD
 import repo as repolib
@@ -85,16 +87,17 @@ class C12(Prop):
                   'correspondence run only (no translator for this property). The model op ONewSession (a new process takes the file over and keeps '
                   'working) is covered by the theorems but not by the correspondence run (other processes are exercised through xcreate). Trusted: Coq '
                   'kernel, extraction, the two script interpreters, the virtual clock (time() defined in the harness binary; the id source itself is never '
-                  'replaced). While /repo has the two defects the model replays code_today and the obligation C12_current_is_repaired is reported broken.')
+                  'replaced). While /repo has a defect of this property the model replays current_behaviour (one switch per defect: duplicate data frame, clock-only seed, '
+                  'forked child inherits the engine) and the obligation C12_current_is_repaired is reported broken.')
     technique = ('Coq proof (finite sweeps + invariants over all histories, engine universally quantified) + differential replay of id histories with '
                  'the real generator under a virtual clock + multi-process runtime experiment under the real clock')
     nontrivial_rule = ('one case = one file history: "new t e" then 25-60 operations over all ten entity kinds (valid creates under random live parents, '
                        'duplicate names of every kind, UUID-shaped names equal to the id of a sibling / of another entity, wrong or dead parents and '
                        'references), deletes of subtrees and re-creation under the same name, setters, forceId, reopen rw/ro (with mutators tried on the '
                        'read-only file), and 0-3 sessions of other processes whose start second equals the creator\'s, equals another one\'s, differs by '
-                       '2^32 or is different; after every operation both sides print, for the file and every live entity, well-formed / same-as-created, '
+                       '2^32 or is different - each either started separately or FORKED by the process that has the file open (after its id generator was initialised); after every operation both sides print, for the file and every live entity, well-formed / same-as-created, '
                        'and whether any id was seen on two owners; a case is non-trivial when at least 5 entities were created; distinct = distinct '
-                       'script text. Runtime experiment: 8 processes x 200 ids (thorough: 16 x 1000) started right after a second boundary.')
+                       'script text. Fork experiment `forks N K` (N in 2..8 children forked after the parent drew 2 ids; each child: own file, K blocks, 2 plain createId; parent K more; all ids through pipes; all must be well-formed and pairwise distinct). Runtime experiment: 8 processes x 200 ids (thorough: 16 x 1000) started right after a second boundary.')
     assumptions = ['the entropy source gives different processes different values (after the repair); on the pinned tree there is no entropy: seed = time(0) mod 2^32',
                    'distinct seeds yield distinct 122-bit random ids: probabilistic, NOT proved - enters the theorems as the hypothesis that the engine gives different ids to the createId calls the history makes',
                    'boost::uuids::to_string / basic_random_generator::operator() / set_uuid_random_vv as in Boost 1.83 headers (transcribed by hand)',
@@ -110,6 +113,8 @@ class C12(Prop):
 
     def _category(self, line, a, b):
         w = line.split(' ')
+        if w[0] == 'forks':
+            return 'fork-after-init-collision' if 'common=1' in a else ('forks-malformed-id' if 'wellformed=0' in a else 'forks-failed')
         if w[0] == 'procs':
             return 'cross-process-collision-real-clock' if 'common=1' in a else 'procs-malformed-id'
         if not a.startswith('OK'):
@@ -145,7 +150,7 @@ class C12(Prop):
                 % (i + 1, case.lines[i], self._category(case.lines[i], impl[i], spec[i]), impl[i], spec[i]))
 
     def nontrivial(self, case, model_lines):
-        return sum(1 for m in model_lines if m.startswith('OK ok=')) >= 5 or case.lines[0].startswith('procs')
+        return sum(1 for m in model_lines if m.startswith('OK ok=')) >= 5 or case.lines[0].startswith(('procs', 'forks'))
 
     # ------------------------------------------------------------------ generator
     def fresh_name(self, rnd, bk, kind, parent):
@@ -293,7 +298,9 @@ class C12(Prop):
                     else:
                         free = [nm for nm in NAMES + ['o1', 'o2', 'o3'] if nm not in used]
                         names.append(rnd.choice(free) if free else 'o%d' % len(bk.kind))
-                L.append('xcreate %d %d %s %d %s' % (t, next_entropy(), kind, n, ' '.join(hx(nm) for nm in names)))
+                # ... either a separately started process, or a child forked by the process that has the file open
+                word = 'xfork' if rnd.random() < 0.45 else 'xcreate'
+                L.append('%s %d %d %s %d %s' % (word, t, next_entropy(), kind, n, ' '.join(hx(nm) for nm in names)))
                 seen = {bk.name[k] for k in bk.siblings(kind, -1)}
                 for nm in names:
                     if nm not in seen:
@@ -329,8 +336,15 @@ class C12(Prop):
             Case(['new 1000 1', 'create block -1 %s -1' % H('b'), 'xcreate %d 2 section 2 %s %s' % (1000 + TWO32, H('y'), H('z'))], 'same-second'),
             Case(['new 1000 1', 'create block -1 %s -1' % H('b'), 'xcreate 1001 2 block 2 %s %s' % (H('y'), H('z')),
                   'xcreate 1001 3 block 1 %s' % H('w'), 'xcreate 1002 4 block 2 %s %s' % (H('y'), H('v'))], 'same-second'),
+            # children forked after the id generator was initialised: two children; child then parent; child, reopen, forceId
+            Case(['new 1000 1', 'xfork 1001 2 block 1 %s' % H('y'), 'xfork 1002 3 section 1 %s' % H('z')], 'fork'),
+            Case(['new 1000 1', 'xfork 1001 2 block 1 %s' % H('y'), 'create section -1 %s -1' % H('s')], 'fork'),
+            Case(['new 1000 1', 'create block -1 %s -1' % H('b'), 'create array 0 %s -1' % H('a'), 'xfork 1000 2 block 2 %s %s' % (H('y'), H('z')),
+                  'reopen rw', 'forceid', 'create tag 0 %s -1' % H('t'), 'xfork 1000 3 section 1 %s' % H('s'), 'xcreate 1000 4 block 1 %s' % H('w'),
+                  'create block -1 %s -1' % H('v'), 'xfork 5 5 array 1 %s' % H('q')], 'fork'),
+            Case(['forks 2 1'], 'forks'), Case(['forks 8 40'], 'forks'), Case(['forks 3 0'], 'forks'),
             # malformed stream
-            Case(['create block -1 %s -1' % H('b'), 'forceid', 'delete 0'], 'malformed'),
+            Case(['create block -1 %s -1' % H('b'), 'forceid', 'delete 0', 'xfork 1 2 block 1 %s' % H('b')], 'malformed'),
             Case(['new 7 1', 'delete 0', 'set 3 type', 'create array 0 %s -1' % H('a'), 'create feature 0 - 0', 'create mtag -1 %s -1' % H('m'),
                   'create block 0 %s -1' % H('b'), 'create block -1 %s -1' % H('b'), 'create block -1 %s -1' % H('c'),
                   'create array 0 %s -1' % H('a'), 'create tag 1 %s -1' % H('t'), 'create feature 3 - 2', 'create mtag 1 %s 2' % H('m'),
@@ -342,6 +356,9 @@ class C12(Prop):
         rnd = random.Random(seed)
         n = (300 if tier == 'quick' else 6000) * scale
         cases = self.fixed_cases()
+        # the fork-after-init experiment on separate files (deterministic: no clock involved)
+        for _ in range((5 if tier == 'quick' else 40) * min(scale, 3)):
+            cases.append(Case(['forks %d %d' % (rnd.randint(2, 8), rnd.choice([1, 2, 5, 17, 60, rnd.randint(1, 120)]))], 'forks'))
         flav = ['mixed', 'mixed', 'frames', 'tiny', 'long']
         for i in range(n):
             f = flav[i % len(flav)] if i < 20 else rnd.choice(flav)
